@@ -207,10 +207,10 @@ def execute(trace, ctx):
                 in_range = -n <= k < n
                 try:
                     res = sg[k]
-                except IndexError:
-                    ctx.op("get", "IndexError")
+                except Exception as e:
+                    ctx.op("get", "out-of-range-error")
                     if in_range:
-                        ctx.violate(P, "index-error-in-range", f"residue index {k} of {n} raised IndexError")
+                        ctx.violate(P, "index-error-in-range", f"residue index {k} of {n} raised {type(e).__name__}: {e}")
                     continue
                 if not in_range:
                     ctx.violate(P, "index-out-of-range-accepted", f"residue index {k} of {n} returned a residue")
